@@ -521,6 +521,85 @@ def step_dict(ctx, g, h, sh, rng):
     return desc, None
 
 
+def readonly_against_model(ctx, g, rng):
+    """The read-only half of the sequence interface (index with optional bounds, count, in, [i], [a:b:c], reversed, len) of ir.modules on
+    lists of 0..5 modules -- built by appends, inserts at the front and moves from another IR -- against the Coq model of the built-in
+    list (Model/SeqOps.v, request 50: the functions the C16_modlist_index / _getitem / _getslice theorems speak about) AND against
+    the built-in list itself.  Every bound in -7..7 and None."""
+    from common import model_batch, model_result
+    R = list(range(-7, 8))
+    opt = lambda v: [] if v is None else [v]  # noqa: E731
+    reqs, metas = [], []
+    for n in range(0, 6):
+        for variant in range(3):
+            ir, other = g.IR(), g.IR()
+            ms = [g.Module(name="m%d" % i) for i in range(n)]
+            order = list(range(n))
+            if variant == 1:
+                rng.shuffle(order)
+            for i in order:
+                if variant == 2 and i % 2:
+                    other.modules.append(ms[i])           # arrives by a move from another IR
+                if variant == 2:
+                    ir.modules.insert(0, ms[i])
+                else:
+                    ir.modules.append(ms[i])
+            extra = g.Module(name="free")
+            allm = ms + [extra]
+            num = {id(x): k + 1 for k, x in enumerate(allm)}
+            l = [num[id(x)] for x in ir.modules]
+            want_l = [k + 1 for k in (order if variant != 2 else order[::-1])]
+            if l != want_l:
+                ctx.add("oracle", "not-like-builtin:build", "ir.modules built by %s holds %s, the built-in list %s" % (["append", "append (shuffled)", "insert(0, .) with moves"][variant], l, want_l), {})
+                continue
+            qs, impl = [], []
+
+            def out(f, conv=lambda v: v):
+                try:
+                    return ("ok", conv(f()))
+                except Exception as e:  # noqa: BLE001
+                    return ("err", exc_name(g, e))
+            for x in allm:
+                xi = num[id(x)]
+                for a in R + [None]:
+                    for b in R + [None]:
+                        if a is None and b is not None:
+                            continue
+                        args = [v for v in (a, b) if v is not None]
+                        qs.append([0, xi, opt(a), opt(b)]); impl.append((out(lambda: ir.modules.index(x, *args)), out(lambda: l.index(xi, *args)), "index(m%d%s)" % (xi, "".join(", %d" % v for v in args))))
+                qs.append([1, xi]); impl.append((out(lambda: ir.modules.count(x)), out(lambda: l.count(xi)), "count(m%d)" % xi))
+                qs.append([2, xi]); impl.append((out(lambda: int(x in ir.modules)), out(lambda: int(xi in l)), "m%d in" % xi))
+            for i in R:
+                qs.append([3, i]); impl.append((out(lambda: num[id(ir.modules[i])]), out(lambda: l[i]), "[%d]" % i))
+            for a in R + [None]:
+                for b in R + [None]:
+                    for c in (None, 1, 2, 3, -1, -2, -3, 7, -7, 0):
+                        cc = 1 if c is None else c
+                        qs.append([4, opt(a), opt(b), cc]); impl.append((out(lambda: [num[id(y)] for y in ir.modules[a:b:c]]), out(lambda: l[a:b:c]), "[%s:%s:%s]" % (a, b, c)))
+            qs.append([5]); impl.append((out(lambda: [num[id(y)] for y in reversed(ir.modules)]), out(lambda: list(reversed(l))), "reversed"))
+            qs.append([6]); impl.append((out(lambda: len(ir.modules)), out(lambda: len(l)), "len"))
+            reqs.append([50, l, qs])
+            metas.append((l, qs, impl))
+    replies = model_batch(reqs)
+    for (l, qs, impl), rep in zip(metas, replies):
+        if not isinstance(rep, list) or len(rep) != len(qs):
+            ctx.add("corr", "seq-readonly-differs", "the model did not answer the %d read-only queries on %s: %r" % (len(qs), l, rep if not isinstance(rep, list) else len(rep)), {"list": l, "stream": "C16 read-only sequence protocol"})
+            continue
+        ctx.case("readonly-seq:%s" % l, len(l) >= 2)
+        bad_o = bad_m = 0
+        for q, (ri, rb, desc), mr in zip(qs, impl, rep):
+            ctx.count("readonly_seq_queries")
+            m = model_result(mr)
+            m = (m[0], m[1]) if m[0] == "ok" else m
+            if ri != rb and bad_o < 3:
+                bad_o += 1
+                ctx.add("oracle", "not-like-builtin:" + desc.split("(")[0].split("[")[0], "ir.modules %s %s: returns/raises %s, the built-in list %s" % (l, desc, ri, rb), {"list": l, "call": desc, "impl": repr(ri), "builtin": repr(rb)})
+            if m != ri and bad_m < 3:
+                bad_m += 1
+                ctx.add("corr", "seq-readonly-differs", "ir.modules %s %s: returns/raises %s, the Coq model of the built-in list %s" % (l, desc, ri, m),
+                        {"list": l, "query": q, "impl": repr(ri), "model": repr(m), "stream": "C16 read-only sequence protocol"})
+
+
 def exhaustive_small_list(ctx, g):
     """Every index / bound / slice argument in -4..4 (and None) on a three-module list, each mutating call on a fresh IR: the index
     arithmetic of ir.modules against the built-in list, deterministically on every run.  After a mutating call the ownership of
@@ -742,6 +821,7 @@ def run(ctx):
         ctx.case(repr(h.items), True)
     d4_stream(ctx, g)
     exhaustive_small_list(ctx, g)
+    readonly_against_model(ctx, g, ctx.rng)
     exhaustive_small_sets(ctx, g)
     worldgen.compare(ctx, hists, "wrappers", "C16 collection correspondence")
     ctx.cov["histories"] = nh
